@@ -773,7 +773,7 @@ def fmtOff (p : Params) (hdr : Bytes) : Fmt WO :=
 /-! ### oracle: the property's statement evaluated on a file -/
 
 inductive Mode where
-  | dir22 | dir3 | diroff | pub | wc
+  | dir22 | dir3 | diroff | pub | wc | rd
 deriving Repr, DecidableEq
 
 /-- LJH 2.2 file against the expected header fields and the accepted records.  Returns the clause that fails. -/
@@ -869,6 +869,241 @@ def chkOff (p : Params) (recs : List WO) (file : Bytes) : Option String :=
           else none
     | _, _, _, _, _ => some "C05:off-header-field matrix shapes missing from ModelInfo"
 
+/-! ### the repository's own LJH reader (`ljh.OpenReader`, `parseHeader`, `NextPulse`), transcribed
+
+This is NOT the doc-derived reader above: it is the Go code as written, quirks included.
+* the header is scanned with `bufio.ScanLines` (split at LF, one trailing CR dropped); the first line must be the magic
+  line; a line CONTAINING `Save File Format Version:` sets the version; `#End of Header` ends the scan; every other line is
+  tried against six `fmt.Sscanf` patterns (`extract` always returns false, so all six are tried):
+  `Digitized Word Size in Bytes: %d`, `Presamples: %d`, `Total Samples: %d`, `Channel: %d` (→ `ChannelIndex`!),
+  `Timestamp offset (s): %f`, `Timebase: %f`;
+* the header length is found by re-reading 1024 bytes from (sum of the line lengths) and looking for the end tag, then
+  ALL following CR / LF bytes are consumed — body bytes too when the first sub-frame count starts with 0x0a / 0x0d;
+* `NextPulse` reads 8 + 8 + 2·Samples bytes with three `binary.Read`s: nothing left at the start of ANY of the three reads
+  is `io.EOF`, a partial read is `io.ErrUnexpectedEOF`. -/
+
+def isSpaceB (c : Nat) : Bool := c = 32 || c = 9 || c = 10 || c = 11 || c = 12 || c = 13
+
+def dropCR (l : Bytes) : Bytes := if l.getLast? = some 13 then l.dropLast else l
+
+/-- `bufio.ScanLines`: the next line and what follows its LF; the unterminated rest of the input is a last line -/
+def scanLine : Bytes → Option (Bytes × Bytes)
+  | [] => none
+  | bs => some (dropCR (bs.takeWhile (· ≠ 10)), (bs.dropWhile (· ≠ 10)).drop 1)
+
+/-- the literal part of a `Sscanf` format (`advance` in fmt/scan.go): characters must match; a space in the format
+needs at least one space in the input (or its end) and swallows all that follow.  Returns the remaining input. -/
+def scanLit : Bytes → Bytes → Option Bytes
+  | [], inp => some inp
+  | f :: fs, inp =>
+    if f = 32 then
+      match inp with
+      | [] => scanLit fs []
+      | c :: r => if isSpaceB c && c ≠ 10 then scanLit fs ((c :: r).dropWhile (fun x => isSpaceB x && x ≠ 10)) else none
+    else
+      match inp with
+      | [] => none
+      | c :: r => if c = f then scanLit fs r else none
+
+/-- `%d`: leading spaces skipped, optional sign, decimal digits (an underscore is taken into the token and then refused
+by ParseInt), value must fit an int64 -/
+def scanD (inp : Bytes) : Option Int :=
+  let inp := inp.dropWhile isSpaceB
+  let (neg, r) := match inp with
+    | 45 :: r => (true, r)
+    | 43 :: r => (false, r)
+    | r => (false, r)
+  let tok := r.takeWhile (fun c => isDigitB c || c = 95)
+  if tok.isEmpty || tok.any (· = 95) then none else
+  match digitsVal tok with
+  | none => none
+  | some n =>
+    let v : Int := if neg then -(n : Int) else n
+    if -(2 ^ 63 : Int) ≤ v ∧ v < 2 ^ 63 then some v else none
+
+/-- `%f`: the float token `[sign] digits [. digits] [e|E [sign] digits]` (NaN / Inf / hex / `p` exponents, which the
+writer never prints for the fields read here, are not modelled); conversion is strconv.ParseFloat (trusted) -/
+def scanFTok (inp : Bytes) : Option Bytes :=
+  let inp := inp.dropWhile isSpaceB
+  let (sg, r) := match inp with
+    | 45 :: r => ([45], r)
+    | 43 :: r => ([43], r)
+    | r => ([], r)
+  let ip := r.takeWhile isDigitB
+  let r := r.dropWhile isDigitB
+  let (fp, r) := match r with
+    | 46 :: r' => (46 :: r'.takeWhile isDigitB, r'.dropWhile isDigitB)
+    | _ => ([], r)
+  let ex := match r with
+    | e :: r' =>
+      if e = 101 || e = 69 then
+        match r' with
+        | 45 :: r'' => e :: 45 :: r''.takeWhile isDigitB
+        | 43 :: r'' => e :: 43 :: r''.takeWhile isDigitB
+        | _ => e :: r'.takeWhile isDigitB
+      else []
+    | [] => []
+  let tok := sg ++ ip ++ fp ++ ex
+  -- ParseFloat needs a digit in the mantissa and, after an `e`, a digit in the exponent
+  if (ip.isEmpty && fp.length ≤ 1) || (match ex.getLast? with | some c => !isDigitB c | none => false) then none
+  else some tok
+
+def isPrefix : Bytes → Bytes → Bool
+  | [], _ => true
+  | _ :: _, [] => false
+  | a :: as, c :: cs => a == c && isPrefix as cs
+
+/-- `strings.Contains` -/
+def containsB (pat : Bytes) : Bytes → Bool
+  | [] => pat.isEmpty
+  | c :: cs => isPrefix pat (c :: cs) || containsB pat cs
+
+/-- `strings.Index` -/
+def indexOfB (pat : Bytes) : Bytes → Option Nat
+  | [] => if pat.isEmpty then some 0 else none
+  | c :: cs => if isPrefix pat (c :: cs) then some 0 else (indexOfB pat cs).map (· + 1)
+
+def splitOnB (sep : Nat) (l : Bytes) : List Bytes :=
+  l.foldr (fun c acc => if c = sep then [] :: acc else match acc with
+    | [] => [[c]]
+    | h :: t => (c :: h) :: t) [[]]
+
+inductive RErr where
+  | magic | version | noend
+deriving Repr, DecidableEq
+
+structure RHdr where
+  version : Nat := 0            -- VersionCode: 0 invalid, 1 = 2.1, 2 = 2.2
+  recLen : Int := 0
+  wordSize : Int := 0
+  presamples : Int := 0
+  samples : Int := 0
+  channel : Int := 0            -- `Reader.ChannelIndex`, read from the `Channel:` line
+  tsoffTok : Option Bytes := none
+  tbTok : Option Bytes := none
+deriving Repr, DecidableEq
+
+def versionTag : Bytes := b "Save File Format Version:"
+
+/-- `setVersionNumber` -/
+def setVersion (h : RHdr) (line : Bytes) : Except RErr RHdr :=
+  let pre := b "Save File Format Version: "
+  let s := if isPrefix pre line then line.drop pre.length else line
+  match splitOnB 46 s with
+  | [p0, p1, p2] =>
+    if p0 ≠ b "2" then .error .version
+    else if p1 = b "1" ∧ p2 = b "1" then .ok { h with version := 1, recLen := 6 }
+    else if p1 = b "2" then .ok { h with version := 2, recLen := 16 }
+    else .error .version
+  | _ => .error .version
+
+/-- the six `Sscanf` attempts on an ordinary header line -/
+def extractLine (h : RHdr) (line : Bytes) : RHdr :=
+  let intAt (pat : String) (old : Int) : Int :=
+    match scanLit (b pat) line with
+    | some rest => (scanD rest).getD old
+    | none => old
+  let tokAt (pat : String) (old : Option Bytes) : Option Bytes :=
+    match scanLit (b pat) line with
+    | some rest => match scanFTok rest with
+      | some t => some t
+      | none => old
+    | none => old
+  { h with wordSize := intAt "Digitized Word Size in Bytes: " h.wordSize,
+           presamples := intAt "Presamples: " h.presamples,
+           samples := intAt "Total Samples: " h.samples,
+           channel := intAt "Channel: " h.channel,
+           tsoffTok := tokAt "Timestamp offset (s): " h.tsoffTok,
+           tbTok := tokAt "Timebase: " h.tbTok }
+
+/-- the scan loop of `parseHeader`: (fields, textLength after the loop) -/
+def scanHeader : Nat → Nat → Nat → RHdr → Bytes → Except RErr (RHdr × Nat)
+  | 0, _, tl, h, _ => .ok (h, tl)
+  | fuel + 1, lnum, tl, h, bs =>
+    match scanLine bs with
+    | none => .ok (h, tl)
+    | some (line, rest) =>
+      let tl := tl + line.length
+      if lnum = 0 then
+        if line ≠ magic22 then .error .magic else scanHeader fuel 1 tl h rest
+      else if containsB versionTag line then
+        match setVersion h line with
+        | .error e => .error e
+        | .ok h' => scanHeader fuel (lnum + 1) tl h' rest
+      else if line = endTag22 then .ok (h, tl)
+      else scanHeader fuel (lnum + 1) tl (extractLine h line) rest
+
+/-- the header length: re-find the end tag in the 1024 bytes at `textLength - len(tag)`, then consume every CR / LF -/
+def locateBody (file : Bytes) (tl : Nat) : Option Nat :=
+  if tl < endTag22.length then none else      -- ReadAt at a negative offset fails: the buffer stays zero
+  let off := tl - endTag22.length
+  let w := (file.drop off).take 1024
+  match indexOfB endTag22 w with
+  | none => none
+  | some idx =>
+    let idx := idx + endTag22.length
+    some (off + idx + ((w.drop idx).takeWhile (fun c => c = 10 || c = 13)).length)
+
+inductive REnd where
+  | eof | ueof
+deriving Repr, DecidableEq
+
+structure Pulse where
+  sub : Int
+  ts : Int
+  samples : List Nat
+deriving Repr, DecidableEq
+
+/-- `NextPulse` until the first error -/
+def readPulses (L : Nat) : Nat → Bytes → List Pulse × REnd
+  | 0, _ => ([], .eof)
+  | fuel + 1, bs =>
+    if bs.isEmpty then ([], .eof) else
+    if bs.length < 8 then ([], .ueof) else
+    let r1 := bs.drop 8
+    if r1.isEmpty then ([], .eof) else
+    if r1.length < 8 then ([], .ueof) else
+    let r2 := r1.drop 8
+    if L ≠ 0 ∧ r2.isEmpty then ([], .eof) else
+    if r2.length < 2 * L then ([], .ueof) else
+    let pl : Pulse := { sub := toSigned 8 (unle (bs.take 8)), ts := toSigned 8 (unle (r1.take 8)),
+                        samples := unWords 2 L r2 }
+    let (ps, e) := readPulses L fuel (r2.drop (2 * L))
+    (pl :: ps, e)
+
+structure ReaderOut where
+  hdr : RHdr
+  headerLength : Nat
+  recordLength : Int
+  pulses : List Pulse
+  fin : REnd
+deriving Repr, DecidableEq
+
+/-- `OpenReader` + `NextPulse` to the end -/
+def readerParse (file : Bytes) : Except RErr ReaderOut :=
+  match scanHeader (file.length + 1) 0 0 {} file with
+  | .error e => .error e
+  | .ok (h, tl) =>
+    match locateBody file tl with
+    | none => .error .noend
+    | some hl =>
+      let (ps, e) := readPulses h.samples.toNat (file.length + 1) (file.drop hl)
+      .ok { hdr := h, headerLength := hl, recordLength := h.recLen + h.wordSize * h.samples, pulses := ps, fin := e }
+
+/-- what the reader must return for a file the writer wrote: the parameters and the accepted records -/
+def readerExpect (p : Params) (hdrLen : Nat) (recs : List W22) (o : ReaderOut) : Bool :=
+  o.hdr.version == 2 && o.hdr.wordSize == 2 && o.hdr.presamples == p.npre && o.hdr.samples == p.nsamp &&
+  o.hdr.channel == p.chnum && o.headerLength == hdrLen && o.recordLength == 16 + 2 * p.nsamp &&
+  o.pulses == recs.map (fun r => { sub := toSigned 8 (twos 8 (r.frame * p.subdiv + p.suboff)),
+                                   ts := toSigned 8 (twos 8 r.ts), samples := r.data.map (· % 65536) }) &&
+  o.fin == .eof
+
+/-- the double the reader stored is a nearest double to the text it scanned (ParseFloat is trusted) -/
+def nearestDouble (t : Bytes) (bits : Nat) : Bool :=
+  match decValue t, f64Value bits with
+  | some (q, _), some (v, ulp) => let d := (q.sub v).abs; Q.le (Q.add d d) ulp
+  | _, _ => false
+
 /-! ### driver -/
 
 inductive POp where
@@ -948,6 +1183,21 @@ def pFile : P (Option Bytes) := do
     let bs ← bytes
     pure (some bs)
 
+/-- what the real reader reported -/
+structure ImplReader where
+  openRes : String
+  ver : Nat := 0
+  ws : Int := 0
+  npre : Int := 0
+  ns : Int := 0
+  ch : Int := 0
+  tso : Nat := 0
+  tb : Nat := 0
+  hl : Nat := 0
+  rl : Int := 0
+  pulses : List Pulse := []
+  fin : String := ""
+
 structure Case where
   mode : Mode
   p : Params
@@ -956,6 +1206,20 @@ structure Case where
   f22 : Option Bytes
   f3 : Option Bytes
   foff : Option Bytes
+  cut : Nat × Nat := (0, 0)
+  rdr : Option ImplReader := none
+
+open P in
+def pImplReader : P ImplReader := do
+  let st ← tok
+  if st != "ok" then pure { openRes := st } else
+  let ver ← nat; let ws ← int; let npre ← int; let ns ← int; let ch ← int
+  let tso ← nat; let tb ← nat; let hl ← nat; let rl ← int
+  let pulses ← list (do
+    let sub ← int; let ts ← int; let d ← pData
+    pure ({ sub, ts, samples := d } : Pulse))
+  let fin ← tok
+  pure { openRes := "ok", ver, ws, npre, ns, ch, tso, tb, hl, rl, pulses, fin }
 
 open P in
 def pCase : P Case := do
@@ -966,14 +1230,17 @@ def pCase : P Case := do
     | "diroff" => pure Mode.diroff
     | "pub" => pure Mode.pub
     | "wc" => pure Mode.wc
+    | "rd" => pure Mode.rd
     | _ => fail s!"bad mode {m}"
   kw "P"; let p ← pParams
   kw "OPS"; let ops ← list pOp
+  let cut ← if mode = .rd then (do kw "CUT"; let k ← nat; let a ← nat; pure (k, a)) else pure (0, 0)
   kw "OUT"; kw "res"; let res ← tok
   kw "f22"; let f22 ← pFile
   kw "f3"; let f3 ← pFile
   kw "foff"; let foff ← pFile
-  pure { mode, p, ops, res, f22, f3, foff }
+  let rdr ← if mode = .rd then (do kw "rdr"; let r ← pImplReader; pure (some r)) else pure none
+  pure { mode, p, ops, res, f22, f3, foff, cut, rdr }
 
 /-- a direct writer driven by `C H (W|F|H)* X`: (result bits, file, accepted records) -/
 def runDirect {ρ} (F : Fmt ρ) (refuseSecondHeader : Bool) (ops : List (Option (Option ρ) × Char)) :
